@@ -43,4 +43,15 @@ TEXT = {
                       "the ASCII tables are regenerated from the source on every run.",
         "technique": "Lean 4 proof (bit-level refinement, generic width) + generated-constant tie + differential correspondence",
     },
+    "C11": {
+        "level_text": "Theorems (generic width/K, hence all 19 types): under the 'unused bits are zero' invariant the storage integer equals the "
+                      "base-4 value of the string (toNat_eq_val), so storage equality <=> string equality (C11_eq_iff) and integer order <=> "
+                      "lexicographic order (C11_lt_iff_lex); every in-range history of extend/rc/set/min_rc preserves the invariant and spells "
+                      "the string computed by the same history on lists (C11_history, by induction over the history), hence two routes to "
+                      "the same string end in the same storage word (C11_routes_agree). The derived ==/cmp/Hash are functions of that word. "
+                      "Histories including set_slice_mut and the other constructors are executed against the crate on every run.",
+        "design_ref": "DESIGN.md section 6, C11",
+        "level_note": COMMON_NOTE + "Hash/Eq/Ord are derived: modelled as functions of the storage integer. Partial: set_slice_mut not yet in C11_history.",
+        "technique": "Lean 4 proof (invariant by induction over operation histories + order embedding) + differential correspondence",
+    },
 }
